@@ -208,7 +208,11 @@ func firstDiff(a, b []byte) int {
 // walks every path) takes seconds: encode only where the property needs it.
 func roundTrip(c *engine.Ctx, workload, callKey string, set *refdawg.Set, alpha []byte, rg refdawg.Rand, idx int, nQueries int, light bool) bool {
 	build := dawgx.Build
-	if light && set.Len() >= 50000 {
+	bytesTotal := 0
+	for _, w := range set.Words {
+		bytesTotal += len(w)
+	}
+	if light && (set.Len() >= 50000 || bytesTotal >= 50000) {
 		build = dawgx.BuildSlowOK // the construction alone is tens of CPU-seconds here (C12 judges construction, on smaller lists)
 	}
 	d, err, pi := build(c, callKey+"|New", set.Words)
